@@ -183,7 +183,19 @@ def work(item):
 
 
 def side_checks(progs, do_conformance):
+    parts = pmap("vf.checks.c03", "side_one", [{"prog": p, "conf": do_conformance} for p in progs])
+    out = {"syntax_checked": 0, "syntax_failures": [], "conformance_programs": 0, "conformance_mismatches": []}
+    cands = []
+    for o, c in parts:
+        for k in out:
+            out[k] += o[k]
+        cands += c
+    return out, cands
+
+
+def side_one(item):
     """Compiler-decided side conditions (concrete; labelled in the evidence)."""
+    progs, do_conformance = [item["prog"]], item["conf"]
     out = {"syntax_checked": 0, "syntax_failures": [], "conformance_programs": 0, "conformance_mismatches": []}
     cands = []
     for prog in progs:
@@ -373,6 +385,10 @@ def selftests():
 def main(tier, seed):
     run = Run(PID, tier, seed, "translation_validation")
     progs = fcorpus.corpus()
+    rng = random.Random(seed)
+    nrand = 40 if tier == "quick" else 400
+    for i in range(nrand):
+        progs.append(fcorpus.random_prog(rng, i))
     K, max_paths = (3, 80) if tier == "quick" else (4, 300)
     for part in pmap("vf.checks.c03", "work", [{"progs": [p], "K": K, "max_paths": max_paths} for p in progs]):
         run.absorb(part)
